@@ -33,11 +33,15 @@ def seeded():
         rows.append(f"| {m.get('id',m['property'])} | {m.get('needs_to_manifest','')} | {'pass' if v.get('existing_tests_pass_with_change') else '?'} | {demo} | {', '.join(m.get('caught_by',[])) or 'NOT REPORTED'} |")
     return '\n'.join(rows)
 def determinism():
-    p='/tmp/determinism.txt'
+    p=f'{V}/sensitivity/determinism.txt'
     if not os.path.exists(p): return '(see evidence files: determinism_selfcheck)'
     return '```\n'+open(p).read().strip()+'\n```'
+def thorough():
+    p=f'{V}/sensitivity/thorough_summary.txt'
+    if not os.path.exists(p): return '(not recorded)'
+    return '```\n'+open(p).read().strip()+'\n```'
 s=open(f'{V}/DESIGN.md').read()
-for marker,fn in (('SENSITIVITY-TABLE',sens),('SEEDED-TABLE',seeded),('DETERMINISM-TABLE',determinism)):
+for marker,fn in (('THOROUGH-TABLE',thorough),('SENSITIVITY-TABLE',sens),('SEEDED-TABLE',seeded),('DETERMINISM-TABLE',determinism)):
     start=f'<!-- {marker} -->'; end=f'<!-- /{marker} -->'
     body=start+'\n'+fn()+'\n'+end
     if end in s:
